@@ -554,16 +554,16 @@ def check(run):
     run.rule("R02.3", "backward_var|index=k returns a value for every k < arity", floor=90)
     run.rule("R02.4", "state read by backward/backward_var is definitely assigned by __call__ (tracking on) / __init__ / class body / wrapper; "
              "__init__ overrides reach super().__init__()", floor=90)
-    r02_1(run)
+    run.do(r02_1)
     from . import linearity
-    linearity.r02_2(run)
-    r02_3(run)
-    r02_4(run)
-    r02_5(run)
-    r02_6(run)
+    run.do(linearity.r02_2)
+    run.do(r02_3)
+    run.do(r02_4)
+    run.do(r02_5)
+    run.do(r02_6)
     run.rule("R02.7", "log-domain family (logaddexp, logaddexp2, softmax, logsoftmax, sigmoid, softmax-crossentropy, _softmax, logsumexp, gru.sig): "
              "finite operands and gradients give finite, nan-free forward values and gradients (extended-sign abstract interpretation of exp over/underflow)", floor=14)
-    r02_7(run)
+    run.do(r02_7)
     run.assume("R02.7: operands and incoming gradients are finite; only exponentials over/underflow (sums, products and differences of finite values are "
                "taken to be finite); relational facts are limited to the tags MAX/GEMAX/NONPOS0/NONPOS/UNIT1/GE1 of sa/rules/ieee.py")
     run.assume("term domain: NumPy elementwise functions are identified with their mathematical definitions on the reals (table in sa/terms.py)")
